@@ -78,6 +78,9 @@ func (s *Sched) log(kind string, obj int, n int) {
 func (e *Exec) makeChan(size int) *Chan {
 	s := e.sch()
 	s.chans++
+	if size > 0 {
+		s.log("mkbuffered", s.chans, size)
+	}
 	return &Chan{id: s.chans, cap: size}
 }
 
